@@ -138,6 +138,36 @@ def mutual_program(rng, pid):
     return {"id": pid, "vars": vars_, "kinds": ["int"] * 4, "nv": 4, "funcs": funcs, "init": [], "recursive": True}
 
 
+def diverging_program(rng, pid):
+    """directed family (C05): a recursive function whose base case is never met by the recursion (or that has no reachable
+    exit at all): serve(n) -> r: if n <= k then r := a else { m := n + 1; t := serve(m); r := t }, called with n > k.
+    The analysis has to extrapolate the growing argument although the function's exit stays unreachable."""
+    vars_ = [{"n": NAMES[i], "t": "int"} for i in range(4)]
+    X, Y, Z, W = 1, 2, 3, 4
+    le = lambda k, t=(): {"k": k, "t": [list(u) for u in t]}
+    k = rng.choice([-1, -2, 0])
+    up = rng.choice([1, 1, 2])
+    g = {"e": le(-k, [(1, X)]), "r": "le"}                      # n <= k
+    variant = rng.choice(["never-met", "never-met", "no-base"])
+    rec = [{"op": "arith", "f": "add", "x": Z, "y": X, "zk": 1, "z": up}, {"op": "call", "fn": "f1", "lhs": [W], "args": [Z]},
+           {"op": "assign", "x": Y, "e": le(0, [(1, W)])}]
+    if variant == "never-met":
+        f_blocks = [{"succ": [2, 3], "stmts": []},
+                    {"succ": [4], "stmts": [{"op": "assume", "c": g}, {"op": "assign", "x": Y, "e": le(rng.randint(-1, 1))}]},
+                    {"succ": [4], "stmts": [{"op": "assume", "c": negate(g)}] + rec},
+                    {"succ": [], "stmts": []}]
+        ex = 4
+    else:
+        f_blocks = [{"succ": [2], "stmts": rec}, {"succ": [], "stmts": []}]
+        ex = 2
+    c = k + rng.choice([1, 1, 2])
+    main_blocks = [{"succ": [2], "stmts": [{"op": "assign", "x": Z, "e": le(c)}, {"op": "call", "fn": "f1", "lhs": [W], "args": [Z]}]},
+                   {"succ": [], "stmts": []}]
+    funcs = [{"name": "main", "in": [], "out": [], "entry": 1, "exit": 2, "blocks": main_blocks},
+             {"name": "f1", "in": [X], "out": [Y], "entry": 1, "exit": ex, "blocks": f_blocks}]
+    return {"id": pid, "vars": vars_, "kinds": ["int"] * 4, "nv": 4, "funcs": funcs, "init": [], "recursive": True, "family": "diverging"}
+
+
 def spike_program(rng, pid):
     """directed family: a callee with a SPIKE - f1(x) -> y = (x == k ? big : x + d) - called three or four times with
     constants such that a later argument lies inside the hull of earlier ones (and may hit the spike), an assertion on the
